@@ -117,7 +117,8 @@ class Ctx:
         for fn in os.listdir(gen):
             if fn.startswith(self.prop + "_") or fn == self.prop + ".lean":
                 os.remove(os.path.join(gen, fn))
-        exe = os.path.join(BUILD, "extract")
+        # one extractor binary per property (checks of different properties may run concurrently)
+        exe = os.path.join(BUILD, "extract_" + self.low)
         rc, out, err = sh(["go", "build", "-o", exe, "."], cwd=os.path.join(ROOT, "extract"), env=GOENV, timeout=timeout)
         if rc != 0:
             self.obligation("tie.extract.build", "tie", False, err)
@@ -217,7 +218,8 @@ class Ctx:
     def go_build(self, name=None, race=False, tags="verif", extra=None, timeout=900):
         """Build harness/cmd/<name> against /repo's working tree. Returns path of the binary or None."""
         name = name or self.low
-        out = os.path.join(BUILD, "harness_%s%s" % (name, "_race" if race else ""))
+        alt = "" if os.path.abspath(REPO) == "/repo" else "_alt" + hashlib.sha1(REPO.encode()).hexdigest()[:8]
+        out = os.path.join(BUILD, "harness_%s%s%s" % (name, "_race" if race else "", alt))
         if os.path.exists(out):
             os.remove(out)                      # never run a stale binary
         hdir = os.path.join(ROOT, "harness")
@@ -387,7 +389,12 @@ class Ctx:
             "wall_s": round(wall, 2),
             "violations": n_viol,
         }
-        with open(os.path.join(ROOT, "evidence", self.prop + ".json"), "w") as f:
+        evdir = os.path.join(ROOT, "evidence")
+        if os.path.abspath(REPO) != "/repo":
+            # mutation rehearsal against another tree: never overwrite the evidence of the real tree
+            evdir = os.path.join(BUILD, "evidence_alt")
+            os.makedirs(evdir, exist_ok=True)
+        with open(os.path.join(evdir, self.prop + ".json"), "w") as f:
             json.dump(ev, f, indent=1, default=str)
         for l in lines:
             print(l, flush=True)
